@@ -43,6 +43,9 @@ CONSTANTS NW,           \* number of writers ("w1".."w3")
           NHours,       \* row j of a batch lies in hour ((j-1) % NHours)+1
           MaxBuf, QCap, NWorkers, MaxIters,
           WalOn,
+          FailKinds,    \* how a storage write fails while storage is down: subset of {"error", "timeout"}
+                        \* (immediate error / the per-flush context deadline expires in a hung write);
+                        \* both raise hasFlushFailure in the code as written -- the kind is part of the schedule
           MaxDown,      \* storage outages
           MaxRot,       \* WAL entries that trigger a rotation
           MaxTick, MaxAged,
@@ -220,10 +223,12 @@ IOStep(p) ==
     /\ cur[p] # {}
     /\ IF up THEN /\ stored' = [r \in Rows |-> stored[r] + Cardinality({i \in cur[p] : i[1] = r})]
                   /\ io' = [io EXCEPT ![p] = @ \ cur[p]] /\ UNCHANGED <<flag, fate>>
-             ELSE /\ io' = [io EXCEPT ![p] = {}] /\ flag' = TRUE /\ Discard(io[p], "ffail")
+                  /\ Cmd([c |-> "io", p |-> p, rows |-> RowsIn(cur[p]), ok |-> TRUE, kind |-> "ok", pend |-> Pending])
+             ELSE /\ io' = [io EXCEPT ![p] = {}] /\ flag' = TRUE /\ Discard(io[p], "ffail")   \* markFlushFailure
                   /\ UNCHANGED stored
+                  /\ \E k \in (IF p \in WK THEN FailKinds ELSE {"error"}) :   \* only worker flushes carry the flush timeout
+                        Cmd([c |-> "io", p |-> p, rows |-> RowsIn(cur[p]), ok |-> FALSE, kind |-> k, pend |-> Pending])
     /\ cur' = [cur EXCEPT ![p] = {}]
-    /\ Cmd([c |-> "io", p |-> p, rows |-> RowsIn(cur[p]), ok |-> up, pend |-> Pending])
     /\ UNCHANGED <<started, sig, rotAfter, wpc, wb, wit, wext, buf, bsig, queue, wkst, ack, closing, cancelled,
                    fapc, agpc, nag, clpc, up, ndown, walA, walR, nrot, tpc, tq, ntick, tstop, rgen, shpc, restarted>>
 
